@@ -50,6 +50,33 @@ CHECKS = {
    text="Lean theorems: breakTie accept/first/random, index shift of scf/swf, randomized-scoring probabilities. Correspondence: rules x tie-breakers x index conventions with the same seed; probability vectors intercepted; all matching/allocation/elicitation rules run in both conventions.",
    note="Index-shift theorems are proved for the voting models; for the other rules the shift is checked on the real code only (stated in DESIGN.md).",
    technique="Lean 4 proof + differential / metamorphic correspondence"),
+ "C03": dict(level="translation_validation", design="6/C03",
+   text="Irving's rotation algorithm is not modelled; every output is certified: stability by the Lean-executable stableB, optimality by an LP-dual certificate over the Vande Vate/Rothblum stability inequalities found by z3 and checked by the Lean-executable smCertOk (C03_cert_sound: accepted => stable and no stable matching is heavier, any n). Brute force / per-block optima are the search for failing inputs. The elimination layer (eliminate, rotationWeight, closure) is modelled and proved.",
+   note="z3 only finds certificates (never trusted); existence of certificates (integrality of the stable-matching polytope) is not proved and not needed.",
+   technique="Lean-proved certificate checker (LP weak duality over stability inequalities) applied to every output"),
+ "C14": dict(level="proof", design="6/C14",
+   text="Lean theorems about the threshold fill in ranking-position space (C14_threshold_rule, C14_two_sided, C14_match_two_queries): favourite kept, simulated <= true, set value/lower bound, outside-all-sets upper bound. Correspondence: simulated matrices of k-ARV, lambda-TSF, Match-TwoQueries equal the model's per agent (thresholds from the specification's formula).",
+   note="Float threshold comparisons: a value between an exact threshold and its float rounding is ambiguous (excluded, counted).",
+   technique="Lean 4 proof + differential correspondence"),
+ "C15": dict(level="proof", design="6/C15",
+   text="Lean theorems: elicitor state machine for every op sequence and backing function (no duplicate forward, repeat = first answer, counter = forwarded), query budgets via clog2, dependence only on asked values (congruence). Correspondence: logged questions of every rule vs model query sets, re-runs with scrambled unasked entries, random op sequences against the machine.",
+   note="As C14.", technique="Lean 4 proof (state-machine invariant, budget, congruence) + differential correspondence"),
+ "C16": dict(level="proof", design="6/C16",
+   text="Lean theorems: karv/tsf distortion bounds derived from what simulate returns (C16_karv, C16_tsf), rpow thresholds form the ratio chain (C16_rpow_thresholds, in R), distortion helper >= 1. Correspondence: end-to-end inequality on the real code with exact rational welfare, every tie-breaker, helper vs exact ratio and the model.",
+   note="The theorems are over Q with abstract thresholds; the float thresholds of the code are tied by the C14 correspondence.",
+   technique="Lean 4 proof + end-to-end exact-arithmetic check of the guarantee"),
+ "C17": dict(level="translation_validation", design="6/C17",
+   text="Composition of the two-sided fill (Lean model simulate2, proved: C14_two_sided, dtsf_sim_int) with Irving certified per output as in C03, with the simulated integer valuations as weights.",
+   note="As C03.", technique="Lean-proved certificate checker applied to every output + model correspondence of the simulated profiles"),
+ "C18": dict(level="proof", design="6/C18",
+   text="Lean theorems: relation checkers (ordinalOkB, strictifyOkB, completeOkB) sound and complete w.r.t. the property clauses for every admissible sort/shuffle order; generator spec; consistency predicate accepts/rejects. Correspondence: every output row goes through the checkers; generator outputs equal generateRow on the re-drawn draws; predicate equals the model's.",
+   note="Orders chosen by numpy among ties/NaNs are treated as arbitrary.", technique="Lean 4 proof of relation checkers + checker run on every output"),
+ "C19": dict(level="proof", design="6/C19",
+   text="Lean theorems about convRows on abstract instances (row count/multiplicities, rank per tie mode, unlisted = NaN, wrong type rejected). Correspondence: instances written in PrefLib syntax, parsed by preflibtools, converted by the real code, compared with the model (equality for accept/first, checker for random).",
+   note="preflibtools' parser is trusted.", technique="Lean 4 proof + differential correspondence"),
+ "C20": dict(level="other", design="6/C20",
+   text="Correspondence-only: every public entry point (enumerated from the modules) is called on random valid arguments with bit-exact before/after snapshots, and on int32/int64/float64 encodings of the same complete profiles. A pure functional model cannot mutate and has no dtypes, so no theorem is claimed.",
+   note="Exempted in-out helpers are listed in harness/c20.py.", technique="exhaustive entry-point enumeration with bit-exact argument snapshots (no proof content)"),
 }
 
 PENDING_REASON = "check not built yet in this snapshot of /verif (work in progress; see DESIGN.md section 9)"
